@@ -27,6 +27,8 @@ class Cfg(object):
     def __init__(self, key, fmt, opts=None, cluster=False, carries=ALL, feats=None, notation="lsb", props=("C06", "C07")):
         self.key, self.fmt, self.opts, self.cluster = key, fmt, dict(opts or {}), cluster
         self.carries, self.feats, self.notation, self.props = frozenset(carries), dict(feats or {}), notation, props
+        # key prefix for failure classes that do not depend on the start-bit notation option
+        self.kbase = "xls" if fmt == "xls" else key
 
     @property
     def code(self):
@@ -294,15 +296,14 @@ def _extract_sym(cfg, data):
             f = re.search(r"/f:(\S+)", line)
             o = re.search(r"/o:(\S+)", line)
             cur["signals"].setdefault(m.group(1), dict(pos=[int(m.group(3)), int(m.group(4)), _i(m.group(5))], type=[typ],
-                                                       factor=f.group(1) if f else None, offset=o.group(1) if o else None,
-                                                       mux=[2, cur["muxvals"][-1]] if False else None))
+                                                       factor=f.group(1) if f else None, offset=o.group(1) if o else None, mux=None))
             continue
         m = re.match(r"^Mux=(\S+) (\d+),(\d+) ([0-9A-Fa-f]+h|\d+)( -m)?", line)
         if m:
             tok = m.group(4)
             v = int(tok[:-1], 16) if tok.endswith("h") else int(tok)
             cur["muxvals"].append(v)
-            cur.setdefault("muxlines", []).append(dict(pos=[int(m.group(2)), int(m.group(3)), _i(m.group(5))], value=v, name=m.group(1)))
+            cur.setdefault("muxlines", []).append(dict(pos=[int(m.group(2)), int(m.group(3)), _i(m.group(5))], value=v, name=m.group(1), token=tok))
     return {"": frames}
 
 
@@ -323,12 +324,12 @@ def _extract_kcd(cfg, data):
                 v = el.find(ns + "Value")
                 t = v.get("type") if v is not None else None
                 f["signals"][el.get("name")] = dict(
-                    pos=[int(el.get("offset")), int(el.get("length", "1")), _i(el.get("endianess") == "big")],
-                    type=[{None: 0, "unsigned": 0, "signed": 1, "single": 2, "double": 3}.get(t, 9)], mux=mux,
+                    pos=[int(el.get("offset")), int(el.get("length", "-1")), _i(el.get("endianess") == "big")],
+                    type=[{None: 0, "unsigned": 4, "signed": 1, "single": 2, "double": 3}.get(t, 9)], mux=mux,
                     factor=v.get("slope") if v is not None else None, offset=v.get("intercept") if v is not None else None)
             mx = msg.find(ns + "Multiplex")
             if mx is not None:
-                f["signals"][mx.get("name")] = dict(pos=[int(mx.get("offset")), int(mx.get("length", "1")), 0], type=[0], mux=[1, 0], is_multiplex_element=True)
+                f["signals"][mx.get("name")] = dict(pos=[int(mx.get("offset")), int(mx.get("length", "1"))], type=None, mux=[1, 0], is_multiplex_element=True)
                 for grp in mx.findall(ns + "MuxGroup"):
                     for el in grp.findall(ns + "Signal"):
                         sig(el, [2, int(grp.get("count"))])
@@ -404,6 +405,19 @@ def _extract_arxml(cfg, data):
         n = txt(e, "a:SHORT-NAME")
         if txt(e, "a:LENGTH") is not None:
             length.setdefault(n, int(txt(e, "a:LENGTH")))
+    ar3type = {}
+    for e in root.xpath("//a:INTEGER-TYPE", namespaces=ns):
+        ar3type[txt(e, "a:SHORT-NAME")] = [0]
+    for e in root.xpath("//a:REAL-TYPE", namespaces=ns):
+        ar3type[txt(e, "a:SHORT-NAME")] = [1, 64 if txt(e, "a:ENCODING") == "DOUBLE" else 32]
+
+    def tfields(n):
+        if n in btype:
+            b = btype[n]
+            if b in ("single", "double"):
+                return [2, 32 if b == "single" else 64]
+            return [0 if b[0] == "u" else 1, int(b[4:])]
+        return ar3type.get(n)
     coeffs = {}
     for e in root.xpath("//a:COMPU-METHOD", namespaces=ns):
         v = e.xpath(".//a:COMPU-NUMERATOR/a:V", namespaces=ns)
@@ -417,7 +431,7 @@ def _extract_arxml(cfg, data):
             if txt(m, "a:START-POSITION") is None:
                 continue
             sigs[n] = dict(pos=[int(txt(m, "a:START-POSITION")), length.get(n), _i(txt(m, "a:PACKING-BYTE-ORDER") == "MOST-SIGNIFICANT-BYTE-LAST")],
-                           type=[btype.get(n)], mux=None,
+                           type=tfields(n), mux=None,
                            offset=coeffs.get(n, (None, None))[0], factor=coeffs.get(n, (None, None))[1])
         pdus[txt(e, "a:SHORT-NAME")] = sigs
     flen = {}
@@ -431,4 +445,122 @@ def _extract_arxml(cfg, data):
             frames[n] = dict(id=[int(txt(t, "a:IDENTIFIER")), _i(txt(t, "a:CAN-ADDRESSING-MODE") == "EXTENDED")],
                              size=flen.get("FRAME_" + n), signals=pdus.get("PDU_" + n, {}))
         out[txt(cl, "a:SHORT-NAME")] = frames
+    return out
+
+
+# ------------------------------------------------------------------------------------------------------------------
+# directed matrices: one per hazard seen while reading the writers/readers, so that every run meets them
+def directed(C):
+    """list of (label, formats or None (= all), CanMatrix).  All inside every listed format's envelope."""
+    out = []
+
+    def base(ecus=("EAlpha", "EBeta", "EGamma", "EDelta")):
+        db = C.CanMatrix()
+        for e in ecus:
+            db.add_ecu(C.Ecu(e))
+        return db
+
+    def sig(name, start, size, le=True, signed=False, **kw):
+        s = C.Signal(name, start_bit=start, size=size, is_little_endian=le, is_signed=signed, **kw)
+        if not s.is_float:
+            lo, hi = s.calculate_raw_range()
+            a, b = s.offset + lo * s.factor, s.offset + hi * s.factor
+            s.min, s.max = min(a, b), max(a, b)
+        return s
+
+    # 1. J1939-style extended id above 0x7FF, Motorola signal crossing bytes (F-C06)
+    db = base()
+    fr = C.Frame("EngineData", arbitration_id=C.ArbitrationId(0x18FEF100, True), size=8)
+    fr.add_transmitter("EAlpha")
+    s = sig("EngSpeed", 13, 12, le=False, factor="0.125", unit="rpm")
+    s.add_receiver("EBeta")
+    fr.add_signal(s)
+    s = sig("EngTemp", 32, 8, signed=True, offset="-40", unit="degC")
+    s.add_receiver("EBeta")
+    s.add_receiver("EGamma")
+    s.add_receiver("EDelta")          # three receivers (F-C07d)
+    fr.add_signal(s)
+    fr.add_signal(sig("NoReceiver", 48, 4))
+    fr.update_receiver()
+    db.add_frame(fr)
+    out.append(("ext-id-motorola-3-receivers", None, db))
+
+    # 2. many digits, exponent forms (F-C07a)
+    db = base()
+    fr = C.Frame("Scaling", arbitration_id=C.ArbitrationId(0x321, False), size=8)
+    fr.add_transmitter("EAlpha")
+    for i, (f, o) in enumerate([("0.123456789", "1.00000001"), ("1E+2", "-0.000001"), ("123456789012", "-987654.321098"),
+                                ("1.0", "0"), ("2.50", "1E-7"), ("0.000244140625", "12E+3")]):
+        s = sig("Sc%d" % i, 8 * i, 8, factor=f, offset=o, unit="V")
+        s.add_receiver("EBeta")
+        fr.add_signal(s)
+    fr.update_receiver()
+    db.add_frame(fr)
+    out.append(("scaling-digits", None, db))
+
+    # 3. multiplexer (Intel, unsigned) with groups 0 and 5, Motorola and Intel group signals (F-C07b; SYM -m of the group)
+    for mle, lab in ((True, "mux-intel"), (False, "mux-motorola")):
+        db = base()
+        fr = C.Frame("MuxFrame", arbitration_id=C.ArbitrationId(0x1ABCDE, True), size=8)
+        fr.add_transmitter("EAlpha")
+        fr.add_signal(sig("Selector", 0 if mle else 5, 3, le=mle, multiplex="Multiplexor"))
+        a = sig("GroupZero", 20, 8, le=False, multiplex=0, unit="A")
+        a.add_receiver("EBeta")
+        b = sig("GroupFive", 16, 8, le=True, multiplex=5, factor="0.5")
+        b.add_receiver("EGamma")
+        b.add_values(1, "On")
+        b.add_values(0, "Off")
+        fr.add_signal(a)
+        fr.add_signal(b)
+        fr.multiplex_signals()
+        fr.update_receiver()
+        db.add_frame(fr)
+        out.append((lab, None if mle else ["dbc", "dbf", "sym", "json", "xls", "arxml"], db))
+
+    # 4. float signals as Signal() creates them (is_signed left at its default True) (F-C07c), signed width classes
+    db = base()
+    fr = C.Frame("Types", arbitration_id=C.ArbitrationId(0x2A0, False), size=24, is_fd=True)
+    fr.add_transmitter("EBeta")
+    f32 = C.Signal("F32", start_bit=0, size=32, is_little_endian=True, is_float=True)
+    f64 = C.Signal("F64", start_bit=32, size=64, is_little_endian=True, is_float=True)
+    for s in (f32, f64):
+        s.min, s.max = -1000, 1000
+        fr.add_signal(s)
+    for i, w in enumerate((8, 9, 16, 17)):
+        s = sig("I%d" % w, 96 + 20 * i, w, signed=True)
+        s.add_values(-1, "Error")
+        s.add_receiver("EAlpha")
+        fr.add_signal(s)
+    fr.update_receiver()
+    db.add_frame(fr)
+    out.append(("types", None, db))
+
+    # 5. equally named signals in consecutive frames (XLS first-signal loss; SYM enum names; KCD receiver merge)
+    db = base()
+    for k, (fid, recv, labels) in enumerate(((0x100, "EBeta", {0: "Off", 1: "On"}), (0x101, "EGamma", {0: "Idle", 1: "Active"}))):
+        fr = C.Frame("Twin%d" % k, arbitration_id=C.ArbitrationId(fid, False), size=2)
+        fr.add_transmitter("EAlpha")
+        s = sig("Status", 0 if k else 3, 2)     # last row of the first frame, first row of the second (XLS sorts by start bit)
+        s.add_receiver(recv)
+        for a, b in labels.items():
+            s.add_values(a, b)
+        fr.add_signal(s)
+        s2 = sig("Aux%d" % k, 8 if k else 0, 3)
+        s2.add_receiver(recv)
+        fr.add_signal(s2)
+        fr.update_receiver()
+        db.add_frame(fr)
+    out.append(("same-signal-name-two-frames", ["dbc", "dbf", "sym", "kcd", "json", "xls"], db))
+
+    # 6. a sender that also receives one of the frame's signals
+    db = base()
+    fr = C.Frame("Loopback", arbitration_id=C.ArbitrationId(0x77, False), size=1)
+    fr.add_transmitter("EAlpha")
+    s = sig("Echo", 0, 8)
+    s.add_receiver("EAlpha")
+    s.add_receiver("EBeta")
+    fr.add_signal(s)
+    fr.update_receiver()
+    db.add_frame(fr)
+    out.append(("sender-also-receiver", None, db))
     return out
